@@ -22,6 +22,7 @@ func checkC20(c *Ctx) {
 	c.useRules(ruleP8, ruleP5, ruleP2, ruleP4, ruleP6, ruleP9, ruleP3)
 	// a delivery at QoS 1/2 is registered before it counts as sent: the registration refuses nothing that needs an acknowledgement
 	c.waitAcceptsRequests()
+	c.noAbandonedResultChannel()
 	r := c.Roles()
 	if !c.Need("start", r.Start, "teardown", r.Stop, "handler", r.Handler, "socket writer", r.SockWrite) {
 		return
